@@ -91,7 +91,7 @@ def rule_R1_R2(ctx, f):
         if ee == P(1) and a[0] == "agg" and a[1] == "closure":
             cl = f.closure(a[2])
             r = cl.term_local(0) if cl else None
-            be = b.bool_edges(c.target)
+            be = b.branch_on_call(c)
             if r is not None and be and be[0] == c.result_term():
                 if c.matches("Iterator::any") and is_call(r, "f64::is_nan") and rejecting(b, be[1]) and b.edge_dominates(c.target, be[2], n.bb):
                     pre_gate = True
@@ -261,7 +261,7 @@ def rule_R3(ctx, f):
     ie = [c for c in b.calls_to("Vec::is_empty") if peel(c.args[0]) == P(1) and b.dominates(c.bb, n.bb)]
     ok = False
     if len(ie) == 1:
-        be = b.bool_edges(ie[0].target)
+        be = b.branch_on_call(ie[0])
         if be and be[0] == ie[0].result_term():
             fills = [c for c in b.calls() if c.matches(["From::from", "slice::to_vec", "ToOwned::to_owned", "Vec::extend_from_slice"]) and
                      any(isinstance(s, tuple) and s and s[0] == "constdef" and s[1].endswith("::DEFAULT_BUCKETS") for s in subterms(c.args[-1]))]
